@@ -13,7 +13,7 @@ ASSUME = ["interpretations: one dimension in {1, 2, 3} per atom name (winding ig
           "the meaning of swaps, cups, caps and daggered boxes is the defining tensor of Mat.tla",
           "TLC proves on all rigid diagrams in bounds that admissible interchanges and snake yanks preserve the "
           "meaning (this discharges the 'same denotation' clauses of C05, C06, C07 at model level)",
-          "spiders, bubbles and sums are not yet covered by this check"]
+          "spiders (delta tensors, fusion), bubbles (two entrywise functions) and formal sums of parallel diagrams are evaluated through tensor.Diagram.eval for the swap/box diagrams of the model; object images are single dimensions"]
 CONST = {"quick": {"inv": (2, 3), "dump": (3, 3), "replay": 450, "MaxCC": 2},
          "thorough": {"inv": (3, 3), "dump": (4, 3), "replay": 20000, "MaxCC": 2}}
 INTERPS = {"Dims23": [2, 3], "Dims21": [2, 1], "Dims32": [3, 2]}
@@ -41,6 +41,11 @@ def proj(T):
 
 
 EMPTY = {"dom": [], "cod": [], "a": [[1, 0]]}
+EMPTY_D = {"dom": [], "cod": [], "boxes": [], "offs": []}
+
+
+def variant(kind, val, exc="", other=None, n=0, m=0, dim=0):
+    return {"kind": kind, "val": val, "exc": exc, "other": other or EMPTY_D, "n": n, "m": m, "dim": dim}
 
 
 def _work(args):
@@ -61,6 +66,7 @@ def _work(args):
 
     def shape(t):
         return tuple(dimmap[A.ATOMS[a[0]]] for a in t if dimmap[A.ATOMS[a[0]]] != 1)
+    seen_parallel = {}
     with open(out, "w") as f:
         for k, dabs in enumerate(states):
             real = A.build(dabs, k % 2)
@@ -70,9 +76,9 @@ def _work(args):
                     und = dict(b, dom=b["cod"], cod=b["dom"], dg=0) if b["dg"] else b
                     box = A.box(und)
                     ar[box] = gen(b["id"], size(und["dom"]), size(und["cod"])).reshape(shape(und["dom"]) + shape(und["cod"]))
-            variant = (k + mode) % 4
-            ob = {x: dims[0], y: dims[1]} if variant % 2 == 0 else {x: Dim(dims[0]), y: Dim(dims[1])}
-            if variant >= 2:
+            fvar = (k + mode) % 4
+            ob = {x: dims[0], y: dims[1]} if fvar % 2 == 0 else {x: Dim(dims[0]), y: Dim(dims[1])}
+            if fvar >= 2:
                 obd, ard = dict(ob), dict(ar)
                 F = tensor.Functor(ob=lambda t: obd[t], ar=lambda b: ard[b])
             else:
@@ -93,22 +99,22 @@ def _work(args):
                     except Exception:
                         continue
                     try:
-                        rec["variants"].append({"kind": "interchange", "val": proj(F(other)), "exc": ""})
+                        rec["variants"].append(variant("interchange", proj(F(other))))
                     except core.Machinery:
                         raise
                     except Exception as e:
-                        rec["variants"].append({"kind": "interchange", "val": EMPTY, "exc": type(e).__name__})
+                        rec["variants"].append(variant("interchange", EMPTY, type(e).__name__))
             try:
                 nf = real.normal_form()
             except Exception:
                 nf = None
             if nf is not None:
                 try:
-                    rec["variants"].append({"kind": "normal_form", "val": proj(F(nf)), "exc": ""})
+                    rec["variants"].append(variant("normal_form", proj(F(nf))))
                 except core.Machinery:
                     raise
                 except Exception as e:
-                    rec["variants"].append({"kind": "normal_form", "val": EMPTY, "exc": type(e).__name__})
+                    rec["variants"].append(variant("normal_form", EMPTY, type(e).__name__))
             if all(b["kind"] in (0, 1) for b in dabs["boxes"]) and all(a[1] == 0 for a in dabs["dom"]) and \
                     all(a[1] == 0 for b in dabs["boxes"] for a in b["dom"] + b["cod"]):
                 # the same diagram as a tensor.Diagram of tensor boxes, evaluated by .eval()
@@ -130,11 +136,34 @@ def _work(args):
                         lw = Dim(*[dimmap[A.ATOMS[a[0]]] for a in _scan_at(dabs, b, o)[0]])
                         rw = Dim(*[dimmap[A.ATOMS[a[0]]] for a in _scan_at(dabs, b, o)[1]])
                         td = td >> tensor.Id(lw) @ tb @ tensor.Id(rw)
-                    rec["variants"].append({"kind": "tensor_eval", "val": proj(td.eval()), "exc": ""})
+                    rec["variants"].append(variant("tensor_eval", proj(td.eval())))
+                    # bubbles: the entrywise image of the inside under the bubble's function
+                    if max(abs(a) for e2 in rec["variants"][-1]["val"]["a"] for a in e2) < 20000:   # TLC integers are 32-bit
+                        rec["variants"].append(variant("bubble_sq", proj(td.bubble(func=lambda v: v * v).eval())))
+                    rec["variants"].append(variant("bubble_1m", proj(td.bubble(func=lambda v: 1 - v).eval())))
+                    # formal sums: with a parallel diagram from the model (the previous one of the same type)
+                    key = (json.dumps(dabs["dom"]), json.dumps(dabs["cod"]))
+                    prev = seen_parallel.get(key)
+                    if prev is not None:
+                        rec["variants"].append(variant("sum", proj((td + prev[1]).eval()), other=prev[0]))
+                    seen_parallel[key] = ({k2: dabs[k2] for k2 in ("dom", "cod", "boxes", "offs")}, td)
                 except core.Machinery:
                     raise
                 except Exception as e:
-                    rec["variants"].append({"kind": "tensor_eval", "val": EMPTY, "exc": type(e).__name__})
+                    rec["variants"].append(variant("tensor_eval", EMPTY, type(e).__name__))
+            if k < 6:
+                # spiders by their defining delta tensors, and spider fusion
+                for (n, m, dd) in ((1, 2, 2), (2, 1, 3), (0, 2, 2), (2, 0, 3), (1, 1, 2), (2, 2, 2), (0, 0, 3), (3, 1, 2))[k::6] + ((1, 2, dims[0] or 2),):
+                    if dd < 2:
+                        continue
+                    try:
+                        rec["variants"].append(variant("spider", proj(tensor.Spider(n, m, dd).eval()), n=n, m=m, dim=dd))
+                        fused = tensor.Spider(n, 2, dd) >> tensor.Spider(2, m, dd)
+                        rec["variants"].append(variant("spider_fusion", proj(fused.eval()), n=n, m=m, dim=dd))
+                    except core.Machinery:
+                        raise
+                    except Exception as e:
+                        rec["variants"].append(variant("spider", EMPTY, type(e).__name__, n=n, m=m, dim=dd))
             f.write(json.dumps(rec) + "\n")
     return len(states)
 
